@@ -7,7 +7,8 @@ ID=$1; V=$2; SRC=$3; shift 3
 EXTRA="$@"
 WT=/tmp/evalwt-$ID$V
 OUT=/verif/seeded/$ID$V
-rm -rf "$WT"; git -C /repo worktree prune; git -C /repo worktree add -q "$WT" HEAD || exit 3
+BASE=$(git -C "$SRC/.." rev-parse HEAD 2>/dev/null || echo HEAD)   # the commit the seeded change was written against
+rm -rf "$WT"; git -C /repo worktree prune; git -C /repo worktree add -q --detach "$WT" "$BASE" || exit 3
 mkdir -p "$OUT"
 cp "$SRC/$ID$V.diff" "$OUT/patch.diff"; cp "$SRC/${ID}${V}_demo.py" "$OUT/demo.py"; cp "$SRC/$ID$V.md" "$OUT/notes.md" 2>/dev/null
 res() { echo "$1" ; }
@@ -23,12 +24,13 @@ for C in $ID $EXTRA; do
   NVF_EVIDENCE_DIR=$EV NVF_REPO_SRC=$WT/src timeout 1800 /venv/bin/python -m nvf.run $C quick > "$EV/$C.out" 2>&1; RC[$C]=$?
 done
 MECH=$(grep -m3 'violated:' "$EV/$ID.out" | cut -c1-220 | tr '\n' ';' | sed 's/"/\x27/g')
+export SEED_BASE=$BASE
 python3 - "$ID" "$V" "$DEMO_CLEAN" "$DEMO_MUT" "$SUITE" "${RC[$ID]}" "$MECH" "$OUT" "$EXTRA" $(for C in $EXTRA; do echo "$C=${RC[$C]}"; done) <<'PY'
 import json, sys
 ID, V, dc, dm, suite, rc, mech, out, extra = sys.argv[1:10]
 others = dict(a.split('=') for a in sys.argv[10:])
 meta = {
- 'property': ID, 'variant': V,
+ 'property': ID, 'variant': V, 'base_commit': __import__('os').environ.get('SEED_BASE'),
  'what_it_needs': open(out + '/notes.md').read() if __import__('os').path.exists(out + '/notes.md') else '',
  'confirmed': {'suite_with_change': suite, 'demo_exit_unchanged': int(dc), 'demo_exit_with_change': int(dm)},
  'check_result': {'quick_exit_code': int(rc), 'caught': int(rc) == 1, 'first_mechanisms': mech},
